@@ -36,7 +36,7 @@ ASSUMPTIONS = [
     "async pauses are measured on the virtual clock (loop.time()); sync pauses are the recorded time.sleep calls",
     "wrapped callables have a __name__",
 ]
-MINIMUMS = {"monitor:attempts": 5000, "monitor:pauses": 2000, "monitor:delay-args": 500, "retries_observed": 5000, "monitor:cancel-in-pause": 50, "calls_from_a_task_with_a_swallowed_cancellation": 300}
+MINIMUMS = {"monitor:attempts": 5000, "monitor:pauses": 2000, "monitor:delay-args": 500, "retries_observed": 5000, "monitor:cancel-in-pause": 50, "calls_from_a_task_with_a_swallowed_cancellation": 300, "calls_of_callables_with_another_advertised_signature": 3}
 JOBS = {"quick": 4, "thorough": 8}
 LEVEL_TEXT = (
     "The complete product of outcome sequences (up to limit+1 attempts, plus over-call detection), limits 1-4, four caught-set forms, five "
